@@ -692,6 +692,32 @@ func c06From(t *rapid.T, re *rootEnv, h *history) {
 func c06To(t *rapid.T, re *rootEnv, h *history) {
 	src := genStruct(t, re, "src")
 	h.add("Source", describeStruct(re, src))
+	if rapid.IntRange(0, 2).Draw(t, "target") == 0 {
+		// "never panics for a non-nil source and target": targets as the framework hands them over — a
+		// decoded state-like value, or the durable form of an earlier write (null collections arrive with
+		// nil containers there) — with every attribute type present
+		var T types.Object
+		var err error
+		if coin(t, 1, 2, "tkind") {
+			T, err = re.decode(genTF(t, re, modeState, "tstate"))
+			h.add("TargetDecoded", "")
+		} else {
+			O := re.emptyObject()
+			re.copyTo(t, "C06", genStruct(t, re, "t0"), &O, h)
+			T, err = re.restart(O)
+			h.add("TargetRestarted", "")
+		}
+		must(err)
+		var ds diag.Diagnostics
+		if p := safely(func() { ds = re.fn.To(ctx, src, &T) }); p != "" {
+			violate(t, "C06/copy-to/no-panic/decoded-target", "CopyTo panicked on a framework-decoded target: %s\nhistory: %s", p, strings.Join(h.lines, " ; "))
+		}
+		if errs := errorDiags(ds); len(errs) > 0 {
+			violate(t, "C06/copy-to/no-spurious-diagnostic", "CopyTo onto a conforming decoded target reported %v\nhistory: %s", errs, strings.Join(h.lines, " ; "))
+		}
+		st.probe("copy-to-onto-decoded-target")
+		return
+	}
 	twinO := re.emptyObject()
 	var twinErrs []string
 	if p := safely(func() { twinErrs = errorDiags(re.fn.To(ctx, src, &twinO)) }); p != "" || len(twinErrs) > 0 {
